@@ -110,6 +110,8 @@ def generate(rng):
           pert["gc_enable"] = True
         if rng.random() < 0.3:
           pert["junk"] = rng.randrange(1 << 30)
+        if rng.random() < 0.35:
+          pert["native_junk"] = rng.randrange(1 << 30)
         req["pert"] = pert
       hist.append(req)
     workers.append({"env": env, "history": hist})
@@ -180,8 +182,11 @@ def evaluate(trace, full=False):
         val = resp.get(c)
         if c == "crash_msg":
           # crashed vs not crashed is itself a difference
-          if resp.get("pickle_len") is not None and val is None:
-            continue   # pickle outputs of a crashed analysis are not produced
+          if (resp.get("pickle_len") is not None and val is None
+              and not resp["key"].startswith("builtins|")):
+            # command-line path with --pickle-output: --nofail hides whether
+            # the analysis failed internally, so crash status is unknown here
+            continue
           val = val if val is not None else "<no crash>"
         if val is None:
           continue
